@@ -51,6 +51,9 @@ func vh_CFG() {
 	vDrain()
 	post := vSnapshotNode(n)
 	f := fut.(*future[Configuration])
+	if r.state != Shutdown {
+		vCheckInv(n, true, true)
+	}
 	vAssert(!vHeld(&r.mu), "C18|C20.lock-released")
 	vAssert(vAnd(post.term == pre.term, vAnd(post.state == pre.state, post.commit == pre.commit)), "C02.membership-call-keeps-role-term-commit")
 
